@@ -405,6 +405,23 @@ fn programs(tier: Tier) -> Vec<Program> {
         raw_at(o, b, c, "container", "malformed: #[deserr(, error = Err2)]", "#[deserr(, error = Err2)]");
         raw_at(o, b, c, "container", "malformed: #[deserr(error = Err2,, )]", "#[deserr(error = Err2,, )]");
     }
+    // the same container-level causes on items whose body is replaced by a container `from`:
+    // the user function does not make the rest of the attribute set honourable
+    for b in ["CF", "CE"] {
+        let unrel = Some("error = Err2");
+        for p in [["bogus"], ["rename = \"x\""], ["default"], ["skip"]] {
+            poison_at(o, b, c, "container", &format!("unknown container attribute `{}` (with container from)", p[0]), &p, unrel, tier);
+        }
+        for p in [["rename_all = camelCase", "rename_all = lowercase"], ["deny_unknown_fields", "deny_unknown_fields"], ["validate = val -> Cerr", "validate = val -> Cerr"], ["error = Err2", "error = Err3"]] {
+            poison_at(o, b, c, "container", &format!("`{}` given twice (with container from)", p[0].split(' ').next().unwrap()), &p, None, tier);
+        }
+        for p in [["rename_all = snake_case"], ["tag = x"], ["rename_all ="], ["validate = val"]] {
+            poison_at(o, b, c, "container", &format!("invalid / malformed `{}` (with container from)", p[0]), &p, unrel, tier);
+        }
+        raw_at(o, b, c, "container", "malformed: #[deserr] (with container from)", "#[deserr]");
+    }
+    poison_at(o, "CF", c, "container", "tag on a struct (with container from)", &["tag = \"t\""], Some("error = Err2"), tier);
+    poison_at(o, "CE", c, "container", "tag given twice (with container from)", &["tag = \"t\"", "tag = \"u\""], Some("error = Err2"), tier);
     // tag
     for p in [["tag = \"t\""], ["tag = \"u\""]] {
         poison_at(o, "TE", c, "container", "tag given twice", &p, Some("deny_unknown_fields"), tier);
